@@ -7,6 +7,7 @@ import (
 	"fmt"
 	"io"
 	"math/big"
+	"os"
 	"os/exec"
 	"strings"
 	"time"
@@ -167,6 +168,13 @@ func (s *Solver) Check(wantModel bool, extras ...*Term) (string, Model) {
 		s.send("(pop 1)\n")
 	}
 	d := time.Since(t0)
+	if d > 2*time.Second && os.Getenv("GOSYM_SLOWQ") != "" {
+		var parts []string
+		for _, e := range extras {
+			parts = append(parts, e.String())
+		}
+		fmt.Fprintf(os.Stderr, "SLOWQ %.1fs %s: %s\n", d.Seconds(), res, strings.Join(parts, " ; "))
+	}
 	s.stats.Queries++
 	s.stats.Time += d
 	if d > s.stats.MaxQuery {
